@@ -303,6 +303,28 @@ def special_cases(what):
                     pr.append(f"{desc}: minimal round trip raised {type(e).__name__}: {str(e)[:80]}")
             if pr:
                 out.append((desc, pr))
+    if what != "schema":
+        # objects built directly (what extensions and the inspector produce): empty-string values are values, not absences
+        from _griffe.models import Attribute, Function, Parameter, Parameters
+        from _griffe.enumerations import ParameterKind
+        m = Module("c8direct")
+        m.set_member("blank", Attribute("blank", value="", annotation=""))
+        m.set_member("f", Function("f", parameters=Parameters(Parameter("p", annotation="", default="", kind=ParameterKind.positional_or_keyword)), returns=""))
+        pr = []
+        try:
+            back = Module.from_json(m.as_json())
+            for path, attr in (("blank", "value"), ("blank", "annotation"), ("f", "returns")):
+                a, b = getattr(m[path], attr), getattr(back[path], attr)
+                if a != b:
+                    pr.append(f"directly built objects: {path}.{attr} was {a!r}, is {b!r} after reload")
+            pa, pb = m["f"].parameters["p"], back["f"].parameters["p"]
+            for attr in ("annotation", "default"):
+                if getattr(pa, attr) != getattr(pb, attr):
+                    pr.append(f"directly built objects: parameter p.{attr} was {getattr(pa, attr)!r}, is {getattr(pb, attr)!r} after reload")
+        except BaseException as e:  # noqa: BLE001
+            pr.append(f"directly built objects: minimal round trip raised {type(e).__name__}: {str(e)[:80]}")
+        if pr:
+            out.append(("directly built objects", pr))
     return out
 
 
@@ -325,7 +347,7 @@ def root_cause(problems, inspect):
 
 def replay_roundtrip(w, obligation, expects):
     r = sweep(60)
-    b = [x for x in r["bad"] if not x["root_cause"]]
+    b = [x for x in r["bad"] if not x["root_cause"] and x.get("signature") not in ("full-dump-namespace", "full-dump-builtin")]
     return {"reproduced": bool(b), "detail": (json.dumps(b[0])[:700] if b else f"round trip holds on {r['cases']} generated modules (known findings aside)"),
             "signature": b[0]["signature"] if b else "ok"}
 
